@@ -171,6 +171,17 @@ func judgeDet(c *CheckCtx, s *Slot, dc *detCase, ipRuns, bbRuns int) *Violation 
 func tieProgram(r *RNG) string {
 	names := []string{"run", "call", "size", "name", "build", "to_s"}
 	classes := []string{"Alpha", "Beta", "Gamma", "Delta"}
+	// names that collide under plausible normalisations (case folding, dropped
+	// punctuation): with configured classes and with each other
+	switch r.Intn(4) {
+	case 0:
+		classes = []string{"Gpio", "Dir", "ALpha", "Alpha"}
+	case 1:
+		classes = []string{"AlphaBeta", "Alphabeta", "AlphaBETA", "Alpha_beta"}
+	case 2:
+		classes = []string{"Js", "Math", "MATh", "Proc"}
+		names = []string{"run", "run?", "run!", "size", "sIze", "to_s"}
+	}
 	var sb strings.Builder
 	Shuffle(r, classes)
 	nm := Pick(r, names)
